@@ -534,6 +534,12 @@ FIXED += [
      json.loads('{"result": "v6", "steps": [{"out": "v0", "table": "t0", "verb": "source"}, {"in": "v0", "items": [["a_r", ["fn", "clip", [["fn", "fill_null", [["fn", "sum", [["col", {"n": "d", "v": "v0"}]], {}], ["fn", "clip", [["fn", "count_star", [], {}], ["lit", -2], ["lit", 7]], {}]], {}], ["lit", -18.5], ["lit", 273.625]], {}]]], "out": "v6", "verb": "summarize"}], "tables": [{"cols": [["id", "int64"], ["d", "bool"], ["y", "int64"]], "name": "t0", "rows": []}], "validate": "check"}')),
 ]
 
+FIXED += [
+    ('F75-sql-union-cast-leaks-into-where', 'C07', 'the float cast of an Int/Float SQL union applies to the select list of the operands only',
+     'SQL (regression of F63): the CAST AS DOUBLE of an Int/Float union column was also used by the WHERE clause of the operand: x // 10 became FLOOR(CAST(..)/10), which fails on SQLite',
+     json.loads('{"result": "v8", "steps": [{"out": "v0", "table": "t1", "verb": "source"}, {"in": "v0", "items": [["x", ["col", {"n": "a", "v": "v0"}]]], "out": "v1", "verb": "mutate"}, {"in": "v1", "out": "v4", "preds": [["fn", "lt", [["col", {"n": "id", "v": "v1"}], ["fn", "floordiv", [["col", {"c": "x"}], ["lit", 10]], {}]], {}]], "verb": "filter"}, {"in": "v0", "items": [["d", ["lit", "a"]]], "out": "v6", "verb": "mutate"}, {"in": "v4", "items": [["d", ["lit", "a"]]], "out": "v7", "verb": "mutate"}, {"distinct": true, "in": "v6", "out": "v8", "right": "v7", "verb": "union"}], "tables": [{"cols": [["id", "int64"], ["a", "int64"], ["x", "float64"]], "name": "t1", "rows": [[1, null, null]]}]}')),
+]
+
 
 def main():
     log = subprocess.run(["git", "-C", "/repo", "log", "--format=%h %s"], capture_output=True, text=True).stdout.splitlines()
